@@ -4,6 +4,20 @@ From Coq Require Import ZifyBool ZifyNat ZifyN.
 Open Scope N_scope.
 Local Open Scope nat_scope.
 
+(** [lia] after dropping everything that is not a statement about [nat]: ZifyBool otherwise unfolds every boolean
+    hypothesis ([tchar c = true], ...) into arithmetic, which makes [lia] take minutes in the larger contexts *)
+Ltac keep_arith := repeat match goal with
+  | H : ?T |- _ =>
+      lazymatch T with
+      | @eq nat _ _ => fail
+      | le _ _ => fail
+      | lt _ _ => fail
+      | not (@eq nat _ _) => fail
+      | _ => clear H
+      end
+  end.
+Ltac qlia := first [ solve [keep_arith; lia] | lia ].
+
 (** * Byte classes *)
 
 Lemma tchar_neq c x : tchar x = false -> tchar c = true -> N.eqb c x = false.
@@ -27,10 +41,17 @@ Proof.
   unfold plain. destruct (N.eqb c SP), (N.eqb c CR), (N.eqb c LF); cbn; intros H; try discriminate; repeat split; reflexivity.
 Qed.
 
-Lemma vis_no_crlf c : visible_or_sp c = true -> no_crlf c = true.
-Proof. unfold visible_or_sp, no_crlf, CR, LF. lia. Qed.
-Lemma vis_hvalue c : visible_or_sp c = true -> hvalue_byte c = true.
-Proof. unfold visible_or_sp, hvalue_byte. lia. Qed.
+Lemma hvalue_no_crlf c : hvalue_byte c = true -> no_crlf c = true.
+Proof. unfold hvalue_byte, no_crlf, CR, LF. lia. Qed.
+Lemma ows_no_crlf c : ows c = true -> no_crlf c = true.
+Proof. unfold ows, no_crlf, SP, TAB, CR, LF. lia. Qed.
+Lemma ows_spec c : ows c = true -> N.eqb c CR = false /\ N.eqb c LF = false /\ N.eqb c COLON = false.
+Proof. unfold ows, SP, TAB, CR, LF, COLON. lia. Qed.
+Lemma tchar_ows c : tchar c = true -> ows c = false.
+Proof.
+  intros H. unfold ows. rewrite (tchar_SP _ H). cbn [orb].
+  destruct (N.eqb_spec c TAB) as [->|]; [vm_compute in H; discriminate|reflexivity].
+Qed.
 Lemma tchar_no_crlf c : tchar c = true -> no_crlf c = true.
 Proof. intros H. unfold no_crlf. rewrite (tchar_CR _ H), (tchar_LF _ H). reflexivity. Qed.
 Lemma plain_no_crlf c : plain c = true -> no_crlf c = true.
@@ -83,7 +104,7 @@ Qed.
 Lemma hdr_step_name all c rest pos lf ns ne vs m :
   tchar c = true -> hdr_loop all (c :: rest) pos false lf ns ne vs m = hdr_loop all rest (S pos) false 0 ns ne vs m.
 Proof.
-  intros H. cbn [hdr_loop]. rewrite (tchar_CR _ H), (tchar_LF _ H), (tchar_COLON _ H), (tchar_SP _ H). reflexivity.
+  intros H. cbn [hdr_loop]. rewrite (tchar_CR _ H), (tchar_LF _ H), (tchar_COLON _ H), (tchar_ows _ H). reflexivity.
 Qed.
 
 Lemma hdr_name_chunk all : forall chunk c rest pos lf ns ne vs m,
@@ -117,13 +138,15 @@ Qed.
 
 Lemma hdr_step_colon all rest pos lf ns ne vs m :
   hdr_loop all (COLON :: rest) pos false lf ns ne vs m =
-  if next_is_space all pos then hdr_loop all rest (S pos) false 0 ns pos vs m
+  if next_is_ows all pos then hdr_loop all rest (S pos) false 0 ns pos vs m
   else hdr_loop all rest (S pos) true 0 ns pos (S pos) m.
 Proof. reflexivity. Qed.
 
-Lemma hdr_step_space all rest pos lf ns ne vs m :
-  hdr_loop all (SP :: rest) pos false lf ns ne vs m = hdr_loop all rest (S pos) true 0 ns ne (value_start_from all pos) m.
-Proof. reflexivity. Qed.
+Lemma hdr_step_ows all c rest pos lf ns ne vs m : ows c = true ->
+  hdr_loop all (c :: rest) pos false lf ns ne vs m = hdr_loop all rest (S pos) true 0 ns ne (value_start_from all pos) m.
+Proof.
+  intros H. destruct (ows_spec _ H) as [H1 [H2 H3]]. cbn [hdr_loop]. rewrite H1, H2, H3, H. reflexivity.
+Qed.
 
 Lemma hdr_step_cr all rest pos inval lf ns ne vs m :
   hdr_loop all (CR :: rest) pos inval lf ns ne vs m = hdr_loop all rest (S pos) inval lf ns ne vs m.
@@ -141,7 +164,7 @@ Lemma hdr_step_lf_value all rest pos ns ne vs m :
       match header_name raw with
       | None => Err E_ILLEGAL_NAME
       | Some name =>
-          match slice_chk vs (if prev_is_cr all pos then pos - 1 else pos) all with
+          match slice_chk vs (trim_end all vs (if prev_is_cr all pos then pos - 1 else pos)) all with
           | Ok v => if hvalue_ok v then hdr_loop all rest (S pos) false 1 (S pos) ne vs (hm_insert name v m)
                     else Err E_ILLEGAL_VALUE
           | Err e => Err e
@@ -151,14 +174,6 @@ Lemma hdr_step_lf_value all rest pos ns ne vs m :
   end.
 Proof. reflexivity. Qed.
 
-Lemma pns_repeat k x : (match x with c :: _ => N.eqb c SP = false | [] => False end) ->
-  position_non_space (repeat SP k ++ x) = Some k.
-Proof.
-  intros Hx. induction k as [|k IH]; cbn [repeat app].
-  - destruct x as [|c x]; [contradiction|]. cbn [position_non_space]. rewrite Hx. reflexivity.
-  - cbn [position_non_space]. change (N.eqb SP SP) with true. cbn iota. rewrite IH. reflexivity.
-Qed.
-
 Lemma name_ok_header_name n : name_ok n = true -> header_name n = Some (lower n).
 Proof.
   unfold name_ok, header_name. intros H. apply andb_true_iff in H as [H H3]. apply andb_true_iff in H as [H1 H2].
@@ -166,139 +181,35 @@ Proof.
   destruct (N.ltb 65535 (N.of_nat (length n))) eqn:E; [lia|reflexivity].
 Qed.
 
-Lemma value_ok_head v post : value_ok v = true ->
-  match v ++ CR :: post with c :: _ => N.eqb c SP = false | [] => False end.
-Proof.
-  unfold value_ok. intros H. apply andb_true_iff in H as [_ H]. destruct v as [|c v]; cbn [app]; [reflexivity|].
-  apply negb_true_iff in H. exact H.
-Qed.
-
 Lemma value_ok_hvalue v : value_ok v = true -> hvalue_ok v = true.
 Proof.
-  unfold value_ok, hvalue_ok. intros H. apply andb_true_iff in H as [H _].
-  apply (forallb_imp visible_or_sp); [apply vis_hvalue|exact H].
+  unfold value_ok, hvalue_ok. intros H. apply andb_true_iff in H as [H _]. apply andb_true_iff in H as [H _]. exact H.
 Qed.
 
 Lemma value_ok_no_crlf v : value_ok v = true -> forallb no_crlf v = true.
-Proof.
-  unfold value_ok. intros H. apply andb_true_iff in H as [H _].
-  apply (forallb_imp visible_or_sp); [apply vis_no_crlf|exact H].
-Qed.
+Proof. intros H. apply (forallb_imp hvalue_byte); [apply hvalue_no_crlf|apply value_ok_hvalue; exact H]. Qed.
 
-(** one header line [name ":" SP^k value CR LF] *)
-Lemma hdr_line all pre name k value post :
-  all = pre ++ name ++ [COLON] ++ repeat SP k ++ value ++ [CR; LF] ++ post ->
-  name_ok name = true -> value_ok value = true ->
-  forall lf ne vs m,
-  hdr_loop all (name ++ [COLON] ++ repeat SP k ++ value ++ [CR; LF] ++ post) (length pre) false lf (length pre) ne vs m =
-  hdr_loop all post (length pre + (length name + 1 + k + length value + 2)) false 1
-           (length pre + (length name + 1 + k + length value + 2))
-           (length pre + length name) (length pre + length name + 1 + k)
-           (hm_insert (lower name) value m).
+(** a value does not start with whitespace ... *)
+Lemma value_ok_first v c r : value_ok v = true -> v = c :: r -> ows c = false.
 Proof.
-  intros Hall Hn Hv lf ne vs m.
-  pose proof (name_ok_header_name _ Hn) as Hhn.
-  assert (Hn' := Hn). unfold name_ok in Hn'. apply andb_true_iff in Hn' as [Hn' _]. apply andb_true_iff in Hn' as [Hnn Hnt].
-  destruct name as [|c0 name']; [discriminate|]. cbn [forallb] in Hnt. apply andb_true_iff in Hnt as [Hc0 Hnt].
-  set (name := c0 :: name') in *.
-  set (P := length pre). set (pos1 := P + length name).
-  (* the name *)
-  unfold name at 1. rewrite hdr_name_chunk by assumption.
-  replace (P + S (length name')) with pos1 by (subst pos1 name; cbn [length]; lia).
-  cbn [app]. rewrite hdr_step_colon.
-  (* lookups *)
-  assert (Hall1 : all = (pre ++ name ++ [COLON]) ++ repeat SP k ++ value ++ CR :: LF :: post).
-  { rewrite Hall. rewrite <- !app_assoc. reflexivity. }
-  assert (Hl1 : length (pre ++ name ++ [COLON]) = S pos1).
-  { rewrite !app_length. cbn [length]. subst pos1 P. lia. }
-  assert (Hname : slice_get P pos1 all = Some name).
-  { rewrite Hall. apply slice_get_mid; subst pos1 P; reflexivity. }
-  assert (Hall2 : all = (pre ++ name ++ [COLON] ++ repeat SP k) ++ value ++ CR :: LF :: post).
-  { rewrite Hall. rewrite <- !app_assoc. reflexivity. }
-  assert (Hl2 : length (pre ++ name ++ [COLON] ++ repeat SP k) = pos1 + 1 + k).
-  { rewrite !app_length, repeat_length. cbn [length]. subst pos1 P. lia. }
-  assert (Hval : slice_chk (pos1 + 1 + k) (pos1 + 1 + k + length value) all = Ok value).
-  { rewrite Hall2. apply slice_chk_mid; [symmetry; exact Hl2|reflexivity]. }
-  assert (Hall3 : all = (pre ++ name ++ [COLON] ++ repeat SP k ++ value) ++ CR :: LF :: post).
-  { rewrite Hall. rewrite <- !app_assoc. reflexivity. }
-  assert (Hl3 : length (pre ++ name ++ [COLON] ++ repeat SP k ++ value) = pos1 + 1 + k + length value).
-  { rewrite !app_length, repeat_length. cbn [length]. subst pos1 P. lia. }
-  assert (Hcr : prev_is_cr all (S (pos1 + 1 + k + length value)) = true).
-  { unfold prev_is_cr. rewrite Hall3. rewrite nth_error_mid by (symmetry; exact Hl3). reflexivity. }
-  pose proof (value_ok_head value (LF :: post) Hv) as Hhead.
-  pose proof (value_ok_hvalue _ Hv) as Hhv.
-  pose proof (value_ok_no_crlf _ Hv) as Hvc.
-  (* after the value: CR LF *)
-  assert (Htail : forall vs0, vs0 = pos1 + 1 + k ->
-    hdr_loop all (CR :: LF :: post) (pos1 + 1 + k + length value) true 0 P pos1 vs0 m =
-    hdr_loop all post (P + (length name + 1 + k + length value + 2)) false 1
-      (P + (length name + 1 + k + length value + 2)) pos1 (pos1 + 1 + k) (hm_insert (lower name) value m)).
-  { intros vs0 ->. rewrite hdr_step_cr, hdr_step_lf_value. rewrite Hname, Hhn, Hcr.
-    replace (S (pos1 + 1 + k + length value) - 1) with (pos1 + 1 + k + length value) by lia.
-    rewrite Hval, Hhv.
-    replace (S (S (pos1 + 1 + k + length value))) with (P + (length name + 1 + k + length value + 2)) by (subst pos1; lia).
-    reflexivity. }
-  destruct k as [|k'].
-  - (* "name:value" *)
-    assert (Hnsp : next_is_space all pos1 = false).
-    { unfold next_is_space. rewrite Hall1. cbn [repeat app].
-      destruct (value ++ CR :: LF :: post) as [|c x] eqn:Ex; [contradiction|].
-      rewrite nth_error_mid by (symmetry; exact Hl1). exact Hhead. }
-    rewrite Hnsp. cbn [repeat app].
-    rewrite hdr_value_chunk by exact Hvc.
-    replace (S pos1 + length value) with (pos1 + 1 + 0 + length value) by lia.
-    apply Htail. lia.
-  - assert (Hnsp : next_is_space all pos1 = true).
-    { unfold next_is_space. rewrite Hall1. cbn [repeat app].
-      rewrite nth_error_mid by (symmetry; exact Hl1). reflexivity. }
-    rewrite Hnsp. cbn [repeat app]. rewrite hdr_step_space.
-    assert (Hvs : value_start_from all (S pos1) = S pos1 + S k').
-    { unfold value_start_from. rewrite Hall1. rewrite skipn_mid by (symmetry; exact Hl1).
-      rewrite (pns_repeat (S k')) by exact Hhead. lia. }
-    rewrite Hvs. rewrite app_assoc.
-    rewrite hdr_value_chunk.
-    + rewrite app_length, repeat_length.
-      replace (S (S pos1) + (k' + length value)) with (pos1 + 1 + S k' + length value) by lia.
-      apply Htail. lia.
-    + rewrite forallb_app. rewrite forallb_repeat by reflexivity. exact Hvc.
+  unfold value_ok. intros H ->. apply andb_true_iff in H as [H _]. apply andb_true_iff in H as [_ H].
+  apply negb_true_iff in H. exact H.
 Qed.
+(** ... and does not end with it *)
+Lemma last_not_ows_app : forall r c, last_not_ows (r ++ [c]) = true -> ows c = false.
+Proof.
+  induction r as [|x r IH]; intros c H.
+  - cbn [app last_not_ows] in H. apply negb_true_iff in H. exact H.
+  - apply IH. cbn [app] in H. destruct (r ++ [c]) as [|y l] eqn:E; [destruct r; discriminate|]. exact H.
+Qed.
+Lemma value_ok_last v r c : value_ok v = true -> v = r ++ [c] -> ows c = false.
+Proof. unfold value_ok. intros H ->. apply andb_true_iff in H as [_ H]. apply last_not_ows_app in H. exact H. Qed.
 
 Definition hdr_fold (m : hmap) (hs : list hline) : hmap :=
   fold_left (fun m h => hm_insert (lower (hl_name h)) (hl_value h) m) hs m.
 
 Definition hlines_ok (hs : list hline) : bool :=
   forallb (fun h => name_ok (hl_name h) && value_ok (hl_value h)) hs.
-
-Lemma print_hline_length h : length (print_hline h) = length (hl_name h) + 1 + hl_sp h + length (hl_value h) + 2.
-Proof. unfold print_hline, crlf. rewrite !app_length, repeat_length. cbn [length]. lia. Qed.
-
-Lemma hdr_block : forall hs pre post lf ne vs m,
-  hlines_ok hs = true -> (hs <> [] \/ lf = 1) ->
-  hdr_loop (pre ++ (concat (map print_hline hs) ++ [CR; LF]) ++ post) ((concat (map print_hline hs) ++ [CR; LF]) ++ post)
-           (length pre) false lf (length pre) ne vs m =
-  Ok (hdr_fold m hs, length pre + length (concat (map print_hline hs) ++ [CR; LF])).
-Proof.
-  induction hs as [|h hs IH]; intros pre post lf ne vs m Hok Hlf.
-  - destruct Hlf as [Hlf|Hlf]; [contradiction|]. subst lf. cbn [map concat app length hdr_fold fold_left].
-    rewrite hdr_step_cr, hdr_step_lf_end. repeat f_equal. lia.
-  - cbn [hlines_ok forallb] in Hok. apply andb_true_iff in Hok as [Hh Hok]. apply andb_true_iff in Hh as [Hn Hv].
-    cbn [map concat hdr_fold fold_left].
-    set (B' := concat (map print_hline hs) ++ [CR; LF]).
-    assert (Hrest : ((print_hline h ++ concat (map print_hline hs)) ++ [CR; LF]) ++ post =
-                    hl_name h ++ [COLON] ++ repeat SP (hl_sp h) ++ hl_value h ++ [CR; LF] ++ (B' ++ post)).
-    { unfold print_hline, crlf, B'. rewrite <- !app_assoc. reflexivity. }
-    rewrite Hrest.
-    rewrite (hdr_line _ pre (hl_name h) (hl_sp h) (hl_value h) (B' ++ post) eq_refl Hn Hv).
-    assert (Hall' : pre ++ hl_name h ++ [COLON] ++ repeat SP (hl_sp h) ++ hl_value h ++ [CR; LF] ++ (B' ++ post) =
-                    (pre ++ print_hline h) ++ B' ++ post).
-    { unfold print_hline, crlf. rewrite <- !app_assoc. reflexivity. }
-    rewrite Hall'.
-    assert (Hlen : length pre + (length (hl_name h) + 1 + hl_sp h + length (hl_value h) + 2) = length (pre ++ print_hline h)).
-    { rewrite app_length, print_hline_length. lia. }
-    rewrite Hlen. unfold B'. rewrite IH; [|exact Hok|right; reflexivity].
-    fold (hdr_fold (hm_insert (lower (hl_name h)) (hl_value h) m) hs).
-    f_equal. f_equal. rewrite !app_length. lia.
-Qed.
 
 (** unique names: [HeaderMap::insert] appends *)
 Lemma hm_insert_fresh k v m : forallb (fun e => negb (beq (fst e) k)) m = true -> hm_insert k v m = m ++ [(k, v)].
@@ -454,22 +365,8 @@ Lemma version_shape g : forallb no_crlf (g_version g) = true /\ length (g_versio
   version_code (g_version g) = Some (if g_v11 g then 11%N else 10%N).
 Proof. unfold g_version. destruct (g_v11 g); vm_compute; repeat split; reflexivity. Qed.
 
-Lemma print_head_shape g extra :
-  print_head g ++ extra =
-  g_method g ++ SP :: g_target g ++ SP :: g_version g ++ CR :: LF :: (concat (map print_hline (g_headers g)) ++ [CR; LF]) ++ extra.
-Proof. unfold print_head, crlf, g_version. rewrite <- !app_assoc. reflexivity. Qed.
-
-Lemma print_head_length g :
-  length (print_head g) =
-  length (g_method g) + 1 + length (g_target g) + 1 + 8 + 2 + length (concat (map print_hline (g_headers g)) ++ [CR; LF]).
-Proof.
-  unfold print_head, crlf. repeat rewrite app_length. cbn [length].
-  assert (Hl : length (if g_v11 g then v11 else v10) = 8) by (destruct (g_v11 g); reflexivity).
-  rewrite Hl. lia.
-Qed.
-
 Record greq_facts (g : greq) : Prop := mk_facts {
-  gf_start : valid_start (g_method g) = true;
+  gf_mnon : g_method g <> [];
   gf_mlen : length (g_method g) <= 7;
   gf_mtok : forallb tchar (g_method g) = true;
   gf_tnon : g_target g <> [];
@@ -482,174 +379,9 @@ Proof.
   unfold greq_ok. intros H.
   repeat (apply andb_true_iff in H; destruct H as [H ?]).
   constructor; try assumption.
+  - destruct (g_method g); [discriminate|discriminate].
   - apply Nat.leb_le. assumption.
   - destruct (g_target g); [discriminate|discriminate].
-Qed.
-
-Lemma valid_start_nonempty m : valid_start m = true -> m <> [].
-Proof. intros H ->. vm_compute in H. discriminate. Qed.
-
-Lemma req_loop_print g extra : greq_facts g ->
-  let all := print_head g ++ extra in
-  req_loop all all 0 RMethod [] 0 0 [] 0 =
-  Ok (mk_scan (g_method g) (length (g_method g) + 1) (length (g_method g) + 1 + length (g_target g)) (g_version g)
-              (hdr_fold [] (g_headers g)) (S (length (print_head g)))).
-Proof.
-  intros F all. destruct F as [Hstart Hmlen Hmtok Htnon Htplain Hlines Hnodup].
-  destruct (version_shape g) as [Hvc [Hvl Hvcode]].
-  set (block := concat (map print_hline (g_headers g)) ++ [CR; LF]).
-  assert (Hall : all = g_method g ++ SP :: g_target g ++ SP :: g_version g ++ CR :: LF :: block ++ extra).
-  { unfold all, block. apply print_head_shape. }
-  set (M := length (g_method g)). set (T := length (g_target g)).
-  rewrite Hall at 2.
-  (* method *)
-  rewrite req_method_chunk by (cbn [length]; assumption || lia). cbn [app Nat.add].
-  rewrite req_step_method_sp.
-  assert (Hm : slice_chk 0 M all = Ok (g_method g)).
-  { rewrite Hall. apply (slice_chk_mid [] (g_method g)); reflexivity. }
-  fold M. rewrite Hm.
-  assert (Hmok : method_ok (g_method g) = true).
-  { unfold method_ok. rewrite Hmtok. destruct (g_method g) eqn:E; [exfalso; apply (valid_start_nonempty _ Hstart); reflexivity|reflexivity]. }
-  rewrite Hmok.
-  (* target *)
-  destruct (g_target g) as [|t0 target'] eqn:Et; [contradiction|].
-  cbn [forallb] in Htplain. apply andb_true_iff in Htplain as [Ht0 Htp].
-  cbn [app]. rewrite req_step_path by exact Ht0. cbn [Nat.eqb].
-  rewrite req_path_chunk by (try assumption; lia).
-  rewrite req_step_path_sp.
-  destruct (Nat.eqb (S M) 0) eqn:E0; [apply Nat.eqb_eq in E0; lia|].
-  (* version *)
-  rewrite req_version_chunk by (cbn [length]; assumption || lia). cbn [app].
-  rewrite req_step_cr, req_step_version_lf, Hvcode.
-  (* positions *)
-  set (pe := S (S M) + length target').
-  set (pl := S (S (S pe + length (g_version g)))).
-  assert (HT : T = S (length target')) by (subst T; reflexivity).
-  (* header block *)
-  assert (Hfin : forall h e, S pl + e = S (length (print_head g)) -> h = hdr_fold [] (g_headers g) ->
-     Ok (mk_scan (g_method g) (S M) pe (g_version g) h (S pl + e)) =
-     Ok (mk_scan (g_method g) (M + 1) (M + 1 + T) (g_version g) (hdr_fold [] (g_headers g)) (S (length (print_head g))))).
-  { intros h e He ->. rewrite He. repeat f_equal; subst pe; lia. }
-  assert (Hpl : pl + length block = length (print_head g)).
-  { rewrite print_head_length. fold block. rewrite Et. fold M. subst pl pe. cbn [length]. rewrite Hvl. lia. }
-  destruct (g_headers g) as [|h hs] eqn:Eh.
-  - (* no header lines *)
-    subst block. cbn [map concat app]. rewrite req_step_cr, req_step_blank.
-    cbn [map concat app length] in Hpl. cbn [hdr_fold fold_left].
-    replace (S (S (S pl))) with (S pl + 2) by lia. apply Hfin; [lia|reflexivity].
-  - (* at least one: parse::headers on the rest of the buffer *)
-    assert (Hn : name_ok (hl_name h) = true).
-    { cbn [hlines_ok forallb] in Hlines. apply andb_true_iff in Hlines as [Hh _]. apply andb_true_iff in Hh as [Hh _]. exact Hh. }
-    assert (Hn' := Hn). unfold name_ok in Hn'. apply andb_true_iff in Hn' as [Hn' _]. apply andb_true_iff in Hn' as [Hnn Hnt].
-    assert (Hblock : exists c brest, block ++ extra = c :: brest /\ tchar c = true).
-    { subst block. cbn [map concat]. unfold print_hline at 1. destruct (hl_name h) as [|c n']; [discriminate|].
-      cbn [forallb] in Hnt. apply andb_true_iff in Hnt as [Hc _]. eexists. eexists. split; [|exact Hc].
-      rewrite <- !app_assoc. cbn [app]. reflexivity. }
-    destruct Hblock as [c [brest [Hb Hc]]]. rewrite Hb.
-    rewrite req_step_header by exact Hc.
-    assert (Hall2 : all = (g_method g ++ SP :: (t0 :: target') ++ SP :: g_version g ++ [CR; LF]) ++ block ++ extra).
-    { rewrite Hall. repeat (progress (try rewrite <- !app_assoc; cbn [app])). reflexivity. }
-    assert (Hlpre : pl = length (g_method g ++ SP :: (t0 :: target') ++ SP :: g_version g ++ [CR; LF])).
-    { rewrite !app_length. cbn [length]. rewrite !app_length. cbn [length]. rewrite !app_length. cbn [length].
-      subst pl pe. fold M. lia. }
-    rewrite Hall2. rewrite (slice_chk_tail _ (block ++ extra) pl Hlpre).
-    unfold parse_headers.
-    assert (Hne : h :: hs <> []) by discriminate.
-    pose proof (hdr_block (h :: hs) [] extra 0 0 0 [] Hlines (or_introl Hne)) as Hhb.
-    cbn [app length] in Hhb. fold block in Hhb. rewrite Hhb.
-    apply Hfin; [cbn [Nat.add]; lia|reflexivity].
-Qed.
-
-(** [parse_request] on a printed head followed by anything: exactly the printed request, and
-    [extra] as the bytes after the head. *)
-Lemma parse_request_print https dh g extra host auth path query :
-  greq_ok g = true -> g_host dh g = Some host -> parse_uri https host (g_target g) = Some (auth, path, query) ->
-  parse_request https dh (print_head g ++ extra) =
-  Ok (mk_request (g_method g) path query (if g_v11 g then 11%N else 10%N) (g_hmap g) auth extra).
-Proof.
-  intros Hok Hhost Huri. pose proof (greq_ok_facts g Hok) as F.
-  unfold parse_request. rewrite (req_loop_print g extra F). cbn [obind].
-  destruct F as [Hstart Hmlen Hmtok Htnon Htplain Hlines Hnodup].
-  destruct (version_shape g) as [_ [_ Hvcode]].
-  unfold req_finish. cbn [sc_pe sc_ps sc_headers sc_method sc_ver sc_end].
-  rewrite (hdr_fold_g g Hnodup).
-  assert (Htl : 0 < length (g_target g)) by (destruct (g_target g); [contradiction|cbn [length]; lia]).
-  destruct (Nat.leb (length (g_method g) + 1 + length (g_target g)) (length (g_method g) + 1)) eqn:E;
-    [apply Nat.leb_le in E; lia|].
-  unfold g_host in Hhost. rewrite Hhost.
-  assert (Ht : slice_chk (length (g_method g) + 1) (length (g_method g) + 1 + length (g_target g)) (print_head g ++ extra) = Ok (g_target g)).
-  { rewrite print_head_shape.
-    change (g_method g ++ SP :: g_target g ++ ?x) with (g_method g ++ [SP] ++ g_target g ++ x).
-    rewrite app_assoc. apply slice_chk_mid; [rewrite app_length; cbn [length]; lia|reflexivity]. }
-  rewrite Ht. cbn [obind].
-  assert (Hmok : method_ok (g_method g) = true).
-  { unfold method_ok. rewrite Hmtok. destruct (g_method g) eqn:Em; [exfalso; apply (valid_start_nonempty _ Hstart); reflexivity|reflexivity]. }
-  rewrite Hmok. cbn [negb]. rewrite Huri, Hvcode.
-  rewrite (slice_chk_tail (print_head g) extra (length (print_head g)) eq_refl). cbn [obind]. reflexivity.
-Qed.
-
-(** * Where a printed head ends *)
-
-Lemma bl_line : forall x ir rest, forallb no_crlf x = true -> (x <> [] \/ ir = false) ->
-  bl_end ir (x ++ CR :: LF :: rest) = option_map (fun k => length x + 2 + k) (bl_end true rest).
-Proof.
-  induction x as [|c x IH]; intros ir rest Hx Hor.
-  - destruct Hor as [Hor|Hor]; [contradiction|]. subst ir. cbn [app length].
-    change (bl_end false (CR :: LF :: rest)) with (option_map S (option_map S (bl_end true rest))).
-    destruct (bl_end true rest); reflexivity.
-  - cbn [forallb] in Hx. apply andb_true_iff in Hx as [Hc Hx]. destruct (no_crlf_spec _ Hc) as [H1 H2].
-    cbn [app bl_end]. rewrite H1, H2. rewrite (IH false rest Hx (or_intror eq_refl)).
-    destruct (bl_end true rest); cbn [option_map length]; [f_equal; lia|reflexivity].
-Qed.
-
-Lemma hline_body_shape h : hlines_ok [h] = true ->
-  let x := hl_name h ++ [COLON] ++ repeat SP (hl_sp h) ++ hl_value h in
-  print_hline h = x ++ [CR; LF] /\ x <> [] /\ forallb no_crlf x = true.
-Proof.
-  intros H x. cbn [hlines_ok forallb] in H. rewrite andb_true_r in H. apply andb_true_iff in H as [Hn Hv].
-  split; [unfold print_hline, crlf, x; rewrite <- !app_assoc; reflexivity|].
-  unfold name_ok in Hn. apply andb_true_iff in Hn as [Hn _]. apply andb_true_iff in Hn as [Hnn Hnt].
-  split; [subst x; destruct (hl_name h); [discriminate|discriminate]|].
-  subst x. rewrite !forallb_app. rewrite (forallb_imp tchar no_crlf _ tchar_no_crlf Hnt).
-  rewrite forallb_repeat by reflexivity. rewrite (value_ok_no_crlf _ Hv). reflexivity.
-Qed.
-
-Lemma bl_block : forall hs rest, hlines_ok hs = true ->
-  bl_end true ((concat (map print_hline hs) ++ [CR; LF]) ++ rest) = Some (length (concat (map print_hline hs) ++ [CR; LF])).
-Proof.
-  induction hs as [|h hs IH]; intros rest Hok; [reflexivity|].
-  cbn [hlines_ok forallb] in Hok. apply andb_true_iff in Hok as [Hh Hok].
-  assert (Hh1 : hlines_ok [h] = true) by (cbn [hlines_ok forallb]; rewrite Hh; reflexivity).
-  destruct (hline_body_shape h Hh1) as [Hp [Hne Hx]].
-  set (x := hl_name h ++ [COLON] ++ repeat SP (hl_sp h) ++ hl_value h) in *.
-  cbn [map concat]. rewrite Hp.
-  replace (((x ++ [CR; LF]) ++ concat (map print_hline hs)) ++ [CR; LF]) with (x ++ CR :: LF :: (concat (map print_hline hs) ++ [CR; LF]))
-    by (rewrite <- !app_assoc; reflexivity).
-  rewrite <- app_assoc. cbn [app]. rewrite bl_line by (try assumption; left; exact Hne).
-  fold (hlines_ok hs) in Hok. rewrite (IH rest Hok). cbn [option_map]. f_equal.
-  rewrite !app_length. cbn [length]. rewrite !app_length. cbn [length]. lia.
-Qed.
-
-Lemma blank_end_print g rest : greq_facts g -> blank_end (print_head g ++ rest) = Some (length (print_head g)).
-Proof.
-  intros F. destruct F as [Hstart Hmlen Hmtok Htnon Htplain Hlines Hnodup].
-  destruct (version_shape g) as [Hvc [Hvl _]].
-  unfold blank_end. rewrite print_head_shape, print_head_length.
-  set (x := g_method g ++ SP :: g_target g ++ SP :: g_version g).
-  replace (g_method g ++ SP :: g_target g ++ SP :: g_version g ++ CR :: LF :: (concat (map print_hline (g_headers g)) ++ [CR; LF]) ++ rest)
-    with (x ++ CR :: LF :: (concat (map print_hline (g_headers g)) ++ [CR; LF]) ++ rest)
-    by (unfold x; repeat (progress (try rewrite <- !app_assoc; cbn [app])); reflexivity).
-  rewrite bl_line.
-  - rewrite (bl_block _ rest Hlines). cbn [option_map]. f_equal. unfold x.
-    rewrite !app_length. cbn [length]. rewrite !app_length. cbn [length]. rewrite Hvl. lia.
-  - unfold x. rewrite forallb_app. rewrite (forallb_imp tchar no_crlf _ tchar_no_crlf Hmtok). cbn [forallb andb].
-    rewrite forallb_app. rewrite (forallb_imp plain no_crlf _ plain_no_crlf Htplain). cbn [forallb]. rewrite Hvc. reflexivity.
-  - left. unfold x. destruct (g_method g); discriminate.
-Qed.
-
-Lemma valid_start_print g rest : greq_facts g -> valid_start (print_head g ++ rest) = true.
-Proof.
-  intros F. rewrite print_head_shape. apply valid_start_app. exact (gf_start g F).
 Qed.
 
 (** * Head, then body *)
@@ -692,65 +424,3 @@ Proof.
   intros H. inversion H. exists host, auth, path, query. split; [reflexivity|]. split; [exact Eu|reflexivity].
 Qed.
 
-Lemma parse_print_lemma : forall grow mode https dh max_len limit g rest sched e,
-  grow_ok grow -> sched_pos sched -> greq_ok g = true -> length (print_head g) <= max_len ->
-  expect https dh limit g rest = Some e ->
-  N.to_nat (N.min (body_length (g_method g) (g_hmap g)) limit) <= length rest ->
-  length (print_head g) + N.to_nat (N.min (body_length (g_method g) (g_hmap g)) limit) <= sum_sched sched ->
-  exists sv, serve grow mode https dh max_len limit (print_head g ++ rest) sched = Ok sv /\ observed sv = Some e.
-Proof.
-  intros grow mode https dh max_len limit g rest sched e Hg Hp Hok Hmax Hex Hneed1 Hneed2.
-  destruct (expect_some _ _ _ _ _ _ Hex) as [host [auth [path [query [Hhost [Huri He]]]]]].
-  pose proof (greq_ok_facts g Hok) as F.
-  set (need := N.to_nat (N.min (body_length (g_method g) (g_hmap g)) limit)) in *.
-  set (stream := print_head g ++ rest). set (H := length (print_head g)) in *.
-  set (d := Nat.min (sum_sched sched) (length stream)).
-  assert (Hls : length stream = H + length rest) by (unfold stream; rewrite app_length; reflexivity).
-  assert (Hd : H + need <= d) by lia.
-  assert (HdS : d <= length stream) by lia.
-  pose proof (blank_end_print g rest F) as Hbe. fold stream in Hbe. fold H in Hbe.
-  assert (Hhs : head_spec max_len (firstn d stream) = Ok H).
-  { unfold head_spec, blank_end in *. rewrite (bl_end_firstn false stream H d Hbe) by lia.
-    destruct (Nat.leb H max_len) eqn:E; [|apply Nat.leb_gt in E; lia].
-    rewrite valid_start_prefix_stable; [unfold stream; rewrite (valid_start_print g rest F); reflexivity|exact HdS|].
-    right. rewrite ctn_firstn, Hbe. apply Nat.leb_le. lia. }
-  pose proof (serve_head grow Hg mode https dh max_len limit stream sched Hp) as Hs. cbv zeta in Hs. fold d in Hs.
-  rewrite Hhs in Hs. destruct Hs as [c [r' [Hc1 [Hc2 [Hat Hs]]]]].
-  assert (Hcd : c <= d) by (destruct Hat as [_ [_ [? _]]]; assumption).
-  assert (Hbuf : firstn c stream = print_head g ++ firstn (c - H) rest).
-  { unfold stream. rewrite firstn_app. fold H. rewrite firstn_all2 by (fold H; lia). reflexivity. }
-  rewrite Hbuf in Hs. rewrite (parse_request_print https dh g _ host auth path query Hok Hhost Huri) in Hs.
-  cbn [obind q_early q_method q_headers] in Hs.
-  pose proof (read_to_bytes_exact grow Hg mode (firstn (c - H) rest) (body_length (g_method g) (g_hmap g)) limit stream d c r' Hat) as Hb.
-  unfold body_spec in Hb. fold need in Hb.
-  assert (Hel : length (firstn (c - H) rest) = c - H) by (rewrite firstn_length; lia).
-  assert (Hdl : length (firstn (d - c) (skipn c stream)) = d - c) by (rewrite firstn_length, skipn_length; lia).
-  rewrite Hel, Hdl in Hb.
-  destruct (Nat.leb need (c - H + (d - c))) eqn:E; [|apply Nat.leb_gt in E; lia].
-  destruct Hb as [r'' [Hb _]]. rewrite Hb in Hs.
-  eexists. split; [exact Hs|]. unfold observed. cbn [sv_body sv_request q_method q_path q_query q_version q_headers q_authority].
-  rewrite He. f_equal. f_equal.
-  rewrite firstn_app_firstn by (rewrite Hel; lia).
-  assert (Hsk : skipn c stream = skipn (c - H) rest).
-  { unfold stream. rewrite skipn_app. fold H. rewrite skipn_all2 by (fold H; lia). reflexivity. }
-  rewrite Hsk, firstn_skipn. reflexivity.
-Qed.
-
-Lemma schedule_independent_lemma : forall grow1 grow2 mode1 mode2 https dh max_len limit g rest sched1 sched2,
-  grow_ok grow1 -> grow_ok grow2 -> sched_pos sched1 -> sched_pos sched2 ->
-  greq_ok g = true -> length (print_head g) <= max_len ->
-  expect https dh limit g rest <> None ->
-  N.to_nat (N.min (body_length (g_method g) (g_hmap g)) limit) <= length rest ->
-  length (print_head g) + N.to_nat (N.min (body_length (g_method g) (g_hmap g)) limit) <= sum_sched sched1 ->
-  length (print_head g) + N.to_nat (N.min (body_length (g_method g) (g_hmap g)) limit) <= sum_sched sched2 ->
-  exists sv1 sv2,
-    serve grow1 mode1 https dh max_len limit (print_head g ++ rest) sched1 = Ok sv1 /\
-    serve grow2 mode2 https dh max_len limit (print_head g ++ rest) sched2 = Ok sv2 /\
-    observed sv1 = observed sv2 /\ observed sv1 <> None.
-Proof.
-  intros grow1 grow2 mode1 mode2 https dh max_len limit g rest sched1 sched2 Hg1 Hg2 Hp1 Hp2 Hok Hmax Hex Hn H1 H2.
-  destruct (expect https dh limit g rest) as [e|] eqn:He; [|contradiction].
-  destruct (parse_print_lemma grow1 mode1 https dh max_len limit g rest sched1 e Hg1 Hp1 Hok Hmax He Hn H1) as [sv1 [Hs1 Ho1]].
-  destruct (parse_print_lemma grow2 mode2 https dh max_len limit g rest sched2 e Hg2 Hp2 Hok Hmax He Hn H2) as [sv2 [Hs2 Ho2]].
-  exists sv1, sv2. repeat split; try assumption; [congruence|rewrite Ho1; discriminate].
-Qed.
